@@ -25,7 +25,7 @@ MANIFEST = dict(
     technique="Lean 4 theorems over a hand-written model (fuelled while/for/else/pop loop, with a fuel-adequacy theorem) "
               "+ differential correspondence with the implementation + the statement executed on the implementation",
     text="Lean theorems, unbounded in text length, number of items and item contents, for the code with fix patches "
-         "C17-a..i applied: C17_total (split_with_escape returns for every text, every non-empty delimiter, every maxsplit, "
+         "C17-a..j applied: C17_total (split_with_escape returns for every text, every non-empty delimiter, every maxsplit, "
          "escape character None or one character, trim on/off; the model's fuel is adequate: C17_fuel_adequate); "
          "C17_no_escape_is_split (escape character absent from the text => the result is str.split(delimiter, maxsplit), "
          "the empty delimiter's ValueError included); C17_odd_run_stays (when the delimiter does not end with the escape "
@@ -64,23 +64,27 @@ MANIFEST = dict(
          "with '#' or '//' after leading white space can be removed anywhere). Hypothesis Exact of the INI value theorems: no numeric or "
          "white-space character outside ASCII, decimals with at most 15 significant digits, at most 7 after the point, zero or >= 0.0001 "
          "(otherwise round(float(x), 7) is not modelled: the model answers unsupported). Examples kept as theorems: C17_nonascii_example, "
-         "C17_list_none_cex, C17_maxsplit_escape_example. OPEN FINDING C17-j (maxsplit counts escaped delimiters): the theorems above "
-         "describe split_with_escape through the pieces of str.split(delimiter, maxsplit), i.e. they took the budget rule over from "
-         "the code; the character-level reference splitRef / refAux (Model/Esc.lean: one pass, an escaped delimiter stays in its "
-         "item and uses up no split, at most maxsplit REAL cuts) is what the property asks for with maxsplit; "
-         "C17_split_maxsplit_real_cuts_stmt (splitWithEscape = splitRef for every text, delimiter, maxsplit, escape, trim) is kept "
-         "visible and is FALSE on the pinned code: C17_split_maxsplit_real_cuts_cex ('\\;;' with maxsplit 1 gives [';;'], the "
-         "reference [';', '']; 'a\\;b;c;d' with maxsplit 2 gives ['a;b', 'c;d'], the reference ['a;b', 'c', 'd']). PROVED outside "
-         "the class: C17_split_real_cuts_partial - for every text, non-empty delimiter, maxsplit, escape character and trim flag "
-         "such that no escaped delimiter is met while real cuts are limited and still allowed (escWithin, decided by the same "
-         "scan as the reference) splitWithEscape = splitRef; C17_split_real_cuts_no_maxsplit - without maxsplit always "
-         "(refAux_eq_specG: the character scan equals the walk specG over the pieces of the limited split). So the defect is "
-         "located exactly in the class of C17-j. On the implementation: stream esc.ref (Lean splitRef = its Python transcription "
-         "ref_split), esc.cls (Lean escWithin = the harness classifier) and evaluators spec / real_cuts (the code = the reference; "
-         "inputs in the class of C17-j are counted, not reported).",
+         "C17_list_none_cex, C17_maxsplit_escape_example. MAXSPLIT COUNTS REAL CUTS (finding C17-j, fixed by fixes/C17-j.patch: the "
+         "raw remainder is split once more before every join): C17_split_maxsplit_real_cuts - the full statement "
+         "C17_split_maxsplit_real_cuts_stmt is a THEOREM: for every text, every non-empty delimiter (those containing or ending with the "
+         "escape character included), every maxsplit, escape character and trim flag splitWithEscape = splitRef, the character-level "
+         "reference (Model/Esc.lean refAux: one pass, an escaped delimiter stays in its item and uses up no split, at most maxsplit REAL "
+         "cuts, the rest is the last item); proved directly on the loop (Proofs/Esc.lean scan_ref / whileLoop_ref: the items from the "
+         "current one on are the pieces of the limited split of the unread text, with the same budget as the reference; "
+         "resplitLast_splitAux: splitting the last piece of split(d, k) once more is split(d, k+1)). The theorems that describe the result "
+         "through the pieces of str.split(delimiter, maxsplit) - C17_general_spec, C17_odd_run_stays - now carry the hypothesis escWithin = false "
+         "(no escaped delimiter is met while real cuts are limited and still allowed; always true without maxsplit: "
+         "C17_general_spec_no_maxsplit, C17_odd_run_stays_no_maxsplit, C17_split_real_cuts_no_maxsplit) because inside that class they "
+         "described the defect (C17_general_spec_needs_class); C17_total, C17_no_escape_is_split, the join round trips are derived from the "
+         "main theorem and hold for every maxsplit as before. C17_fuel_adequate is restated for the loop without recursion (fuel > length of "
+         "the text). C17_split_maxsplit_real_cuts_witnesses: the former counter-examples now give the reference's answers "
+         "(C17_split_maxsplit_real_cuts_cex and C17_split_real_cuts_partial are replaced by the main theorem). On the implementation: "
+         "stream esc.split (+ /edge, /exhaustive, /real-cuts: the former class included) ties the model to the code, esc.ref ties Lean "
+         "splitRef to its Python transcription ref_split, esc.cls Lean escWithin to the harness transcription, and evaluators spec / "
+         "real_cuts check the code = the reference on EVERY input (no suppression).",
     note="unescape is modelled as latin-1/backslashreplace encoding followed by CPython's unicode_escape decoder (validated by stream esc.unesc); "
          "upper()/lower() only for ASCII (otherwise unsupported); str.isnumeric() above U+007F is a table (Unicode 15.0) validated at every boundary "
-         "by stream ini.isnum; floats are opaque lexemes. Open finding: C17-j (escape character + maxsplit >= 1 + an escaped delimiter among the first maxsplit delimiters; fixes/C17-j.proposed.patch measured equal to the reference but not applied - the loop proofs are not moved yet); fixes proposed in this round: C17-e (non-ASCII text through unescape), "
+         "by stream ini.isnum; floats are opaque lexemes. No open finding (C17-j - escape character + maxsplit >= 1 + an escaped delimiter among the first maxsplit delimiters - is fixed by fixes/C17-j.patch and the model, the loop proofs and the main theorem follow the patched code); fixes proposed in this round: C17-e (non-ASCII text through unescape), "
          "C17-g ('KEY +=VALUE' with a blank before '+='); fourth wave: C17-h (unescape keeps None / numbers: a key that got the default value no longer makes unescape raise), C17-i (deserialize_list_of_lists hands parse_empty to the sublists). "
          "Default values that are numbers / bools are outside the model (Option Str) and covered by the evaluators default and dict_roundtrip/flags only.",
     design_ref="5/C17",
@@ -176,17 +180,13 @@ def esc_within(s, d, m, e):
 
 
 def maxsplit_escape_class(c):
-    """class of the open finding C17-j: an escape character is given, maxsplit >= 1, and one of the delimiters met while real cuts
-    are still allowed is escaped (the item before it ends with an odd run of escapes).  Outside this class the model is PROVED
-    equal to the reference (C17_split_real_cuts_partial)."""
+    """class of the FIXED finding C17-j (suppresses nothing; counted for coverage only): an escape character is given, maxsplit >= 1, and one of the delimiters met while real cuts
+    are still allowed is escaped (the item before it ends with an odd run of escapes).  Before the fix the code differed from the reference exactly
+    here; now model and code are PROVED / checked equal to the reference everywhere (C17_split_maxsplit_real_cuts)."""
     s, d, m, e = c.get("s"), c.get("d"), c.get("m"), c.get("e")
     if not (isinstance(s, str) and isinstance(d, str) and d and e and len(e) == 1 and isinstance(m, int) and m >= 1):
         return False
     return esc_within(s, d, m, e)
-
-
-def known_real_cuts(c, detail=None):
-    return "C17-j" if maxsplit_escape_class(c) else None
 
 
 def okstrs(xs):
@@ -457,8 +457,8 @@ def ddu_impl(c):
 # ---------------------------------------------------------------------------
 def check_spec(c):
     """split_with_escape = the character-level reference (delimiter non-empty, not ending with the escape character): an
-    escaped delimiter stays inside its item, every other delimiter is a cut, at most maxsplit REAL cuts.  (Outside the class
-    of C17-j the reference equals Lean's splitSpec over the pieces of str.split(d, maxsplit): streams esc.spec / esc.split.)"""
+    escaped delimiter stays inside its item, every other delimiter is a cut, at most maxsplit REAL cuts.  (Outside the former class
+    of C17-j the reference equals Lean's splitSpec over the pieces of str.split(d, maxsplit): stream esc.spec.)"""
     swe = impl()[0]
     want = ref_split(c["s"], c["d"], c["m"], c["e"], c["tr"])
     r = core.call(swe, c["s"], c["d"], c["m"], c["e"], c["tr"])
@@ -1077,9 +1077,8 @@ def shrink_failure(evaluator, case):
     def still(c):
         if _base(evaluator).startswith("ini_") and (not isinstance(c, dict) or c.get("eq") != case.get("eq")):
             return False  # the equal tag is an option of the case: never shrunk
-        if _base(evaluator) in ("spec", "real_cuts") and (c.get("m") != case.get("m") or c.get("d") != case.get("d") or c.get("e") != case.get("e") or c.get("tr") != case.get("tr")
-                                                         or maxsplit_escape_class(c)):
-            return False  # options are never shrunk; a shrunk text must stay outside the class of the open finding C17-j
+        if _base(evaluator) in ("spec", "real_cuts") and (c.get("m") != case.get("m") or c.get("d") != case.get("d") or c.get("e") != case.get("e") or c.get("tr") != case.get("tr")):
+            return False  # options are never shrunk
         return valid(c) and fn(c) is not None
 
     return core.shrink(case, still)
@@ -1214,9 +1213,10 @@ def run(ctx):
     spcases = [c for c in scases + ex if c["e"] and c["d"]]
     ctx.correspond("esc.spec", spcases, spec_line, spec_py, nontrivial=nt_split)
     # ---- C: split = spec, plain, total
-    ctx.evaluate("spec", [c for c in spcases if _spec_valid(c)], check_spec, in_known=known_real_cuts, nontrivial=nt_split)
+    ctx.evaluate("spec", [c for c in spcases if _spec_valid(c)], check_spec, nontrivial=nt_split)
     # ---- the character-level reference: Lean's splitRef = its Python transcription (B), the code = the reference (C);
-    #      maxsplit 1..4 exhaustively on short texts; failures inside the class of the open finding C17-j are counted, not reported
+    #      maxsplit 1..4 exhaustively on short texts; every input is checked (finding C17-j is fixed: nothing is suppressed);
+    #      the same cases go through the model stream esc.split, so the former class is covered by B as well
     rng = ctx.rng("real-cuts")
     rc = list(scases) + edge
     for k in range((5 if ctx.tier == "quick" else 7) + 1):
@@ -1230,8 +1230,9 @@ def run(ctx):
         rc.append(c)
     ctx.correspond("esc.ref", rc, ref_line, ref_py, nontrivial=nt_split)
     ctx.correspond("esc.cls", [c for c in rc if c["e"] and c["d"]], cls_line, cls_py, nontrivial=lambda c: nt_split(c) and bool(c["m"]))
-    ctx.evaluate("real_cuts", rc, check_real_cuts, in_known=known_real_cuts, nontrivial=lambda c: nt_split(c) and bool(c["m"]))
-    ctx.extra["real_cuts_in_class_C17j"] = sum(1 for c in rc if maxsplit_escape_class(c))
+    ctx.correspond("esc.split/real-cuts", rc, split_line, split_impl, nontrivial=lambda c: nt_split(c) and bool(c["m"]))
+    ctx.evaluate("real_cuts", rc, check_real_cuts, nontrivial=lambda c: nt_split(c) and bool(c["m"]))
+    ctx.extra["real_cuts_in_former_class_C17j"] = sum(1 for c in rc if maxsplit_escape_class(c))
     plain = []
     rng = ctx.rng("plain")
     for _ in range(n // 2):
@@ -1487,7 +1488,7 @@ def run(ctx):
         cms.append({"eq": eq, "lines": lines, "noise": noise})
     ctx.evaluate("ini_comments", cms, check_ini_comments, nontrivial=lambda c: any(c["noise"]) and not all(c["noise"]))
     ctx.extra["assumptions"] = [
-        "the model follows the code with fix patches C17-a ... C17-g applied",
+        "the model follows the code with fix patches C17-a ... C17-j applied (C17-j: the raw remainder is split once more before every join)",
         "escape character: None/'' or a single character (a longer escape_character is outside the model)",
         "unescape = latin-1/backslashreplace encoding followed by CPython 3.12's unicode_escape decoder, hand-modelled (\\N{...} and lone surrogates: unsupported); validated by stream esc.unesc",
         "str.split(sep, maxsplit) is hand-modelled (splitAux) and validated by the esc.split streams with escape None",
